@@ -1,6 +1,8 @@
 """Per-property configuration of the check driver (which suites run, which oracle tags decide it)."""
 
-KERNEL = "Coq 8.16.1 kernel (coqc; coqchk -o in the thorough tier); vm_compute only for closed computations; no native_compute"
+KERNEL = ("Coq 8.16.1 kernel (coqc; in the thorough tier also coqchk -o on the property file and everything it depends on, except the "
+          "bounded evaluation grids Properties/CxxG.v of C13-C16, which coqchk would re-evaluate by plain conversion for hours); "
+          "vm_compute only for closed computations; no native_compute")
 NOAX = "axioms: none (every property theorem prints 'Closed under the global context'; checked on every run)"
 TIE_B = ("tie: hand-written Gallina mirror (coq/theories/Model) checked against the compiled crate by the "
          "correspondence run of this check (harness/impl_run -> ocaml/driver on the extracted model); "
@@ -204,7 +206,8 @@ PROPS["C14"] = dict(
 PROPS["C15"] = dict(
     suites=["ops:signed"], oracle_re=r"oracle:C15:", gen=True,
     rule=("four encodings, all pairs (p, n) with components <= 3/4 for the unary operations and p1, n1, p2, n2 <= 2/3 for "
-          "add, sub, mul, under NOR and HNO; inputs are arbitrary, not only canonical, pairs"),
+          "add, sub, mul (thorough: mul only for p1+n1+p2+n2 <= 8 - larger non-canonical products outgrow the size guard under "
+          "normal order), under NOR and HNO; inputs are arbitrary, not only canonical, pairs"),
     trusted_base=DATA_TB, assumptions=DATA_ASM,
     explanation=("Theorems for ALL pairs (p, n), canonical or not, in all four encodings, on the generated constants: simplify, "
                  "modulus, neg, to_signed, add, sub, mul reduce to the canonical pair of the integer result (Proofs/SignedArith.v: one "
